@@ -2,6 +2,7 @@ import PdshVerif.Base.Hex
 import PdshVerif.Dshbak.Model
 import PdshVerif.Dshbak.Spec
 import PdshVerif.Dshbak.Options
+import PdshVerif.Dshbak.DirTree
 import Driver.Util
 
 /-! line protocol of the dshbak engine
@@ -71,7 +72,8 @@ def runHeader (line : String) : Option String :=
     pure (hxs (gs.map fun g => renderHeader [g]) ++ "=" ++ toString (hostsOf gs).length)
   | _ => none
 
-/-- `o FIXD0 FLAGS D DIRSTATE`: the option block (`Dshbak/Options.lean` `plan`).  FLAGS = letters of c h f or
+/-- `o FORM FLAGS D DIRSTATE`: the option block (`Dshbak/Options.lean` `plan`); FORM = `d` (`defined $opt_d`: the
+script since /repo 8474bb4) or `t` (the truth test of the script before it, sent only when the probe finds it).  FLAGS = letters of c h f or
 `-`, D = HEX(argument of -d) or `~` (no -d; `-` = the empty string), DIRSTATE = dir | missing | notdir.
 `f HEX(tag),...`: `fileNameOK` of every tag, one digit each. -/
 def runOpt (line : String) : Option String :=
@@ -81,12 +83,39 @@ def runOpt (line : String) : Option String :=
     let st : DirState ← match ds with
       | "dir" => some .dir | "missing" => some .missing | "notdir" => some .notDir | _ => none
     let o : Opts := { c := flags.contains 'c', h := flags.contains 'h', f := flags.contains 'f', d := dv }
-    pure (match plan (fix = "1") o st with
+    pure (match plan (fix = "t") o st with
       | .usage => "usage" | .fatal => "fatal" | .report => "report" | .coalesced => "coalesced"
       | .perFile false => "perfile0" | .perFile true => "perfile1")
   | ["f", tags] => do
     let tags ← unhxs tags
     pure (String.ofList (tags.map fun t => if fileNameOK t then '1' else '0'))
+  | _ => none
+
+def parseInit (s : String) : Option (List (Str × List Str)) :=
+  if s = "." then some [] else
+  (s.splitOn ";").mapM fun b =>
+    match b.splitOn "=" with
+    | [a, c] => do let a ← unhx a; let c ← unhxs c; pure (a, c)
+    | _ => none
+
+/-- `w REPAIRED HEX(DIR) HEX(cwd) HEX(dir node),... HEX(key),... HEXINPUT INIT`: `dshbak -d DIR` on a directory tree;
+INIT = the files that exist beforehand, `HEX(node)=HEX(line),...;...` or `.`
+(`Dshbak/DirTree.lean`): nodes are `/`-joined component paths from a virtual root, the keys are `keys %lines` in the
+order the real perl yields them.  Answer: `ok|fatal` and the files afterwards, `HEX(node)=HEX(line),...;...` -/
+def runTree (line : String) : Option String :=
+  match Driver.words line with
+  | ["w", rep, dir, cwd, dirs, ks, hxin, init] => do
+    let before ← parseInit init
+    let dir ← unhx dir
+    let cwd ← unhx cwd
+    let dirs ← unhxs dirs
+    let ks ← unhxs ks
+    let files ← (hxin.splitOn "+").mapM (fun x => if x = "-" then some [] else unhx x)
+    let node (s : Str) : Node := if s.isEmpty then [] else splitSlash s
+    let m := processLines (rep.toNat?.getD 0 % 2 = 1) (readFiles files)
+    let r := runWrites (dirs.map node) (node cwd) (perFileWrites dir ks m) (before.map fun e => (node e.1, e.2))
+    let showNode (n : Node) : String := hx (("/".toList).intercalate n)
+    pure ((if r.2 then "ok " else "fatal ") ++ semis (r.1.map fun e => showNode e.1 ++ "=" ++ hxs e.2))
   | _ => none
 
 def parseRecs (s : String) : Option (List (Str × Str)) :=
@@ -120,7 +149,7 @@ def runSpec (line : String) : String :=
 def main (args : List String) : IO UInt32 := do
   let stdin ← IO.getStdin
   match args with
-  | ["model"] => Driver.forLines stdin () (fun _ l => ((), ((runHeader l).orElse fun _ => runOpt l).getD (runModel l))); return 0
+  | ["model"] => Driver.forLines stdin () (fun _ l => ((), (((runHeader l).orElse fun _ => runOpt l).orElse fun _ => runTree l).getD (runModel l))); return 0
   | ["spec"] => Driver.forLines stdin () (fun _ l => ((), runSpec l)); return 0
   | _ => IO.eprintln "usage: pdshmodel dshbak model|spec"; return 2
 
